@@ -621,6 +621,12 @@ func checkConc(c concCase) error {
 				return fmt.Errorf("infra: light capture channel %s missing", ch)
 			}
 			tails[ch] = lc.tail
+			defer func() {
+				// the instance may outlive the case in goroutines Run leaves behind
+				lc.mu.Lock()
+				lc.events = nil
+				lc.mu.Unlock()
+			}()
 		} else {
 			cap := lab.GetCapture(cid)
 			if cap == nil {
